@@ -229,3 +229,144 @@ def match_blocks(lines, blocks):
     if todo:
         return {'missing_members': sorted(todo)[:5], 'expected_block_head': {k: v[:2] for k, v in list(todo.items())[:2]}}
     return None
+
+# ----------------------------------------------------------------------------- correspondence with the Lean model (Model/Deb.lean)
+
+def _h(s):
+    return H.hexs(s)
+
+def fakepath_cases(rng, n):
+    """(fake_root | None, path) — roots with and without the trailing separator, paths below, beside and outside the root"""
+    roots = ['/tmp/t/', '/tmp/t', '/', '', 'rel/', 'rel', '/tmp/i18nspector.deb.abc/', '/a//b/', '/tmp/zażółć/', '/tmp/t//']
+    fakes = ['p.deb/', 'p.deb', '/abs/p.deb/', '', '/', 'dir with space/p.deb/', 'ż.deb/']
+    tails = ['usr/share/x.po', '', 'x', '/x.po', '../x.po', 'usr/ż.mo', 'a b/c.po']
+    out = [(None, '/tmp/t/x.po'), (None, '')]
+    for _ in range(n):
+        r = rng.choice(roots)
+        f = rng.choice(fakes)
+        k = rng.random()
+        if k < 0.5:
+            p = r + rng.choice(tails)
+        elif k < 0.7:
+            p = r.rstrip('/') + rng.choice(['X/f.po', '.bak/f.po', 'f.po'])          # a sibling whose name starts like the root
+        elif k < 0.85:
+            p = rng.choice(['/other/x.po', 'x.po', '', '/'])
+        else:
+            p = r[:rng.randint(0, len(r))] + rng.choice(tails)
+        out.append(((r, f), p))
+    return out
+
+def fakepath_stream(chk, n):
+    H.ready()
+    lines, impl = [], []
+    for fr, p in fakepath_cases(chk.rng, n):
+        lines.append('deb fakepath ' + ('~ ~' if fr is None else f'{_h(fr[0])} {_h(fr[1])}') + ' ' + _h(p))
+        try:
+            c, _calls = H.make_checker(p, fake_root=fr)
+            impl.append('ok ' + _h(c.fake_path))
+        except ValueError:
+            impl.append('err ValueError')
+        except BaseException as exc:
+            if isinstance(exc, (KeyboardInterrupt, SystemExit)):
+                raise
+            impl.append('err CRASH:' + type(exc).__name__)
+    return chk.stream('deb-fakepath', lines, impl)
+
+class WalkSpy:
+    """records what os.walk yields during the real run, with islink/isfile of every file at that moment"""
+    def __init__(self):
+        self.walk = []
+        self.links = []
+        self.nonfiles = []
+        self.tops = []
+    def __enter__(self):
+        self.orig = os.walk
+        def spy(top, *a, **kw):
+            self.tops.append(top)
+            for root, dirs, files in self.orig(top, *a, **kw):
+                files = list(files)
+                for f in files:
+                    p = os.path.join(root, f)
+                    if os.path.islink(p):
+                        self.links.append(p)
+                    if not os.path.isfile(p):
+                        self.nonfiles.append(p)
+                self.walk.append((root, files))
+                yield root, dirs, files
+        os.walk = spy
+        return self
+    def __exit__(self, *a):
+        os.walk = self.orig
+
+def raw_calls(path):
+    """the tag calls of the real Checker.check() on `path`, as the model's TagCall triples (name, priority letter, rest of the line)"""
+    from lib import tags as T
+    st, calls = None, []
+    try:
+        chk, calls = H.make_checker(path)
+        chk.check()
+        raised = False
+    except BaseException as exc:
+        if isinstance(exc, (KeyboardInterrupt, SystemExit)):
+            raise
+        raised = True
+    out = []
+    for name, extra in calls:
+        line = T.get_tag(name).format('@', *extra)
+        prio, _, rest = line.partition(': @: ')
+        out.append((name, prio, rest))
+    return out, raised
+
+def checkfile_line(path, unpack, ignore, tmpdir, unpack_ok, walk, links, nonfiles, raw):
+    enc_walk = ';'.join(_h(r) + ':' + ','.join(_h(f) for f in fs) for r, fs in walk) or '~'
+    enc_raw = ';'.join(_h(p) + '=' + '/'.join('|'.join(_h(x) for x in c) for c in calls) + ('!' if raised else '') for p, (calls, raised) in raw.items()) or '~'
+    return ' '.join(['deb checkfile', '1' if unpack else '0', ','.join(_h(t) for t in sorted(ignore)) or '~', _h(path), _h(tmpdir), '1' if unpack_ok else '0',
+                     enc_walk, ','.join(_h(p) for p in links) or '~', ','.join(_h(p) for p in nonfiles) or '~', enc_raw])
+
+def canon_stdout(out, exc):
+    """the real run's stdout in the model's output form"""
+    lines = out.splitlines()
+    res = []
+    for l in lines:
+        prio, _, tail = l.partition(': ')
+        # `{prio}: {target}: {rest}` — the target may contain ': ' only in hostile names, which the generator does not produce
+        target, _, rest = tail.partition(': ')
+        res.append(f'{_h(prio)}:{_h(target)}:{_h(rest)}')
+    status = 'normal' if exc is None else ('ValueError' if exc.startswith('ValueError') else 'raised')
+    return f'{status} n={len(res)}' + ''.join(' | ' + r for r in res)
+
+def deb_stream(chk, work, cases):
+    """cases: list of (path to check, members | None, ignore_tags, unpack flag).  The real `cli.check_file` runs with the real dpkg-deb; the
+    model is given what the OS delivered during that run (temporary name, walk, link/file status) and each member's own tag calls,
+    taken from an independent extraction."""
+    from lib import cli
+    H.ready()
+    lines, impl = [], []
+    for path, members, ignore, unpack in cases:
+        # what the unpacker does, asked directly
+        unpack_ok, xroot = False, None
+        if path.endswith('.deb'):
+            xroot = tempfile.mkdtemp(prefix='x.', dir=work.root)
+            unpack_ok = subprocess.run(['dpkg-deb', '-x', path, xroot], capture_output=True).returncode == 0
+        elif path.endswith('.dsc'):
+            xroot = tempfile.mkdtemp(prefix='x.', dir=work.root)
+            unpack_ok = subprocess.run(['dpkg-source', '--no-copy', '--no-check', '-x', path, os.path.join(xroot, 's', '')], capture_output=True).returncode == 0
+        with TmpdirGuard(work) as guard, WalkSpy() as spy:
+            out, exc = inproc(cli.check_file, path, options=options(unpack_deb=unpack, ignore_tags=set(ignore)))
+        tmpdir = spy.tops[0] if spy.tops else '/nonexistent'
+        raw = {}
+        if spy.tops and xroot is not None:
+            for root, files in spy.walk:
+                for f in files:
+                    p = os.path.join(root, f)
+                    if p in spy.links or p in spy.nonfiles:
+                        continue
+                    mine = os.path.join(xroot, os.path.relpath(p, tmpdir))
+                    raw[p] = raw_calls(mine)
+        else:
+            raw[path] = raw_calls(path)
+        lines.append(checkfile_line(path, unpack, ignore, tmpdir, unpack_ok, spy.walk, spy.links, spy.nonfiles, raw))
+        impl.append(canon_stdout(out, exc))
+        if xroot:
+            shutil.rmtree(xroot, ignore_errors=True)
+    return chk.stream('deb-checkfile', lines, impl)
